@@ -165,6 +165,8 @@ type config struct {
 	fn     string   // select hints: function ("" = nil hints)
 	rng    int64    // select hints: range in ms
 	maxres int64    // querier's max source resolution in ms
+	spc    int      // TSDB mode: samples per head chunk (0 = default 120)
+	tframe int      // TSDB mode: TSDBStore frame byte budget (0 = default 1 MiB)
 }
 
 func parseConfig(c vt.Case) config {
@@ -172,7 +174,8 @@ func parseConfig(c vt.Case) config {
 	cfg := config{dedup: vt.Bool(m["dedup"]), rls: vt.Strs(m["rls"]), lo: vt.Int64(m["lo"]), hi: vt.Int64(m["hi"]),
 		pr: vt.Bool(m["pr"]), retr: vt.Str(m["retr"]), frame: vt.Int(m["frame"]), batch: vt.Int(m["batch"]),
 		tsdb: vt.Bool(m["tsdb"]), fail: vt.Str(m["fail"]), tight: vt.Bool(m["tight"]),
-		sel: vt.Int(m["sel"]), down: vt.Int(m["down"]), fn: vt.Str(m["fn"]), rng: vt.Int64(m["rng"]), maxres: vt.Int64(m["maxres"])}
+		sel: vt.Int(m["sel"]), down: vt.Int(m["down"]), fn: vt.Str(m["fn"]), rng: vt.Int64(m["rng"]), maxres: vt.Int64(m["maxres"]),
+		spc: vt.Int(m["spc"]), tframe: vt.Int(m["tframe"])}
 	for _, b := range vt.List(m["strip"]) {
 		cfg.strip = append(cfg.strip, vt.Bool(b))
 	}
@@ -182,7 +185,8 @@ func parseConfig(c vt.Case) config {
 func (c config) toMap() map[string]any {
 	return map[string]any{"dedup": c.dedup, "rls": c.rls, "strip": c.strip, "lo": c.lo, "hi": c.hi, "pr": c.pr,
 		"retr": c.retr, "frame": c.frame, "batch": c.batch, "tsdb": c.tsdb, "fail": c.fail, "tight": c.tight,
-		"sel": c.sel, "down": c.down, "fn": c.fn, "rng": c.rng, "maxres": c.maxres}
+		"sel": c.sel, "down": c.down, "fn": c.fn, "rng": c.rng, "maxres": c.maxres,
+		"spc": c.spc, "tframe": c.tframe}
 }
 
 // inScope: the store takes part in the query and answers (ReadPath!Scoped).
@@ -329,6 +333,8 @@ type runResult struct {
 	warns   int
 	reqs    []any
 	queried []any
+	// TSDB mode: largest number of frames one series was streamed in by a real TSDBStore
+	maxFrames int
 }
 
 func nstores(w world) int {
@@ -370,6 +376,7 @@ func runCase(t *testing.T, w world, cfg config) (res runResult) {
 	var clients []store.Client
 	var fakes []*fakeStore
 	var closers []func()
+	var counters []*frameCounter
 	defer func() {
 		for _, c := range closers {
 			c()
@@ -378,7 +385,9 @@ func runCase(t *testing.T, w world, cfg config) (res runResult) {
 	if cfg.tsdb {
 		for i := range w.reps {
 			r := &w.reps[i]
-			cl, closeFn := tsdbClient(t, w, r, cfg)
+			fc := &frameCounter{}
+			counters = append(counters, fc)
+			cl, closeFn := tsdbClient(t, w, r, cfg, fc)
 			closers = append(closers, closeFn)
 			clients = append(clients, cl)
 		}
@@ -458,6 +467,13 @@ func runCase(t *testing.T, w world, cfg config) (res runResult) {
 		t.Fatalf("timing problem, not an observation: %s", res.err) // exit 2, never a verdict
 	}
 	res.warns = len(ss.Warnings())
+	for _, fc := range counters {
+		fc.mu.Lock()
+		if fc.maxFrames > res.maxFrames {
+			res.maxFrames = fc.maxFrames
+		}
+		fc.mu.Unlock()
+	}
 	res.reqs = []any{}
 	res.queried = []any{}
 	for _, f := range fakes {
@@ -474,14 +490,67 @@ func runCase(t *testing.T, w world, cfg config) (res runResult) {
 	return res
 }
 
+// frameCounter wraps a store client and counts, per Series call, the largest number of consecutive
+// frames that carried the same label set (> 1 = a series was streamed in several frames).
+type frameCounter struct {
+	storepb.StoreClient
+	mu        sync.Mutex
+	maxFrames int
+}
+
+type countingSeriesClient struct {
+	storepb.Store_SeriesClient
+	fc   *frameCounter
+	last string
+	run  int
+}
+
+func (c *frameCounter) Series(ctx context.Context, req *storepb.SeriesRequest, opts ...grpc.CallOption) (storepb.Store_SeriesClient, error) {
+	cl, err := c.StoreClient.Series(ctx, req, opts...)
+	if err != nil {
+		return nil, err
+	}
+	return &countingSeriesClient{Store_SeriesClient: cl, fc: c}, nil
+}
+
+func (c *countingSeriesClient) Recv() (*storepb.SeriesResponse, error) {
+	r, err := c.Store_SeriesClient.Recv()
+	if err == nil {
+		var sers []*storepb.Series
+		if r.GetSeries() != nil {
+			sers = append(sers, r.GetSeries())
+		}
+		if b := r.GetBatch(); b != nil {
+			sers = append(sers, b.Series...)
+		}
+		for _, x := range sers {
+			l := labelpb.ZLabelsToPromLabels(x.Labels).String()
+			if l == c.last {
+				c.run++
+			} else {
+				c.last, c.run = l, 1
+			}
+			c.fc.mu.Lock()
+			if c.run > c.fc.maxFrames {
+				c.fc.maxFrames = c.run
+			}
+			c.fc.mu.Unlock()
+		}
+	}
+	return r, err
+}
+
 // tsdbClient: a real TSDB holding the replica's samples behind a real TSDBStore whose external
 // labels are the replica labels.
-func tsdbClient(t *testing.T, w world, r *replica, cfg config) (store.Client, func()) {
+func tsdbClient(t *testing.T, w world, r *replica, cfg config, fc *frameCounter) (store.Client, func()) {
 	opts := tsdb.DefaultOptions()
 	opts.WALSegmentSize = -1 // no WAL
 	opts.RetentionDuration = 0
 	opts.MinBlockDuration = int64(48 * time.Hour / time.Millisecond)
 	opts.MaxBlockDuration = opts.MinBlockDuration
+	if cfg.spc > 0 {
+		opts.SamplesPerChunk = cfg.spc // many small head chunks
+	}
 	db, err := tsdb.Open(t.TempDir(), nil, nil, opts, nil)
 	if err != nil {
 		t.Fatalf("harness setup (not an observation): %v", err)
@@ -511,8 +580,13 @@ func tsdbClient(t *testing.T, w world, r *replica, cfg config) (store.Client, fu
 		t.Fatalf("harness setup (not an observation): %v", err)
 	}
 	ext := extb.Labels()
-	ts := store.NewTSDBStore(nil, db, component.Receive, ext)
-	cl := &storetestutil.TestClient{StoreClient: storepb.ServerAsClient(ts, atomic.Bool{}), Name: "tsdb-" + ext.String(),
+	var sopts []store.TSDBStoreOption
+	if cfg.tframe > 0 {
+		sopts = append(sopts, store.VerifReadPathWithMaxBytesPerFrame(cfg.tframe)) // series span several frames
+	}
+	ts := store.NewTSDBStore(nil, db, component.Receive, ext, sopts...)
+	fc.StoreClient = storepb.ServerAsClient(ts, atomic.Bool{})
+	cl := &storetestutil.TestClient{StoreClient: fc, Name: "tsdb-" + ext.String(),
 		ExtLset: []labels.Labels{ext}, MinTime: math.MinInt64, MaxTime: math.MaxInt64, WithoutReplicaLabelsEnabled: true}
 	return cl, func() { _ = db.Close() }
 }
@@ -717,6 +791,9 @@ func randomWorld(rnd *rand.Rand, maxSamples int, forTSDB bool) vt.Case {
 	reps := []any{}
 	for g := 1; g <= ngroups; g++ {
 		n := 1 + rnd.Intn(maxSamples)
+		if forTSDB {
+			n = maxSamples/3 + rnd.Intn(2*maxSamples/3) // enough samples for several head chunks
+		}
 		nrep := 1 + rnd.Intn(4)
 		ident := rnd.Intn(3) > 0
 		overlap := rnd.Intn(3) == 0
@@ -795,11 +872,20 @@ func TestC04(t *testing.T) {
 			emit(wc, randomConfig(rnd, w, true))
 			emit(wc, randomConfig(rnd, w, rnd.Intn(2) == 0))
 		}
-		for i, n := 0, vt.Pick(6, 150); i < n; i++ {
-			wc := randomWorld(rnd, 400, true)
+		// TSDB-backed worlds: most with small head chunks and a tiny TSDBStore frame budget, so that
+		// a series is streamed as several frames by the real store
+		for i, n := 0, vt.Pick(40, 300); i < n; i++ {
+			wc := randomWorld(rnd, vt.Pick(150, 400), true)
 			w := parseWorld(vt.Normalize(wc))
 			cfg := randomConfig(rnd, w, i%2 == 0)
-			cfg.tsdb, cfg.sel, cfg.down = true, 0, 0
+			cfg.tsdb, cfg.sel, cfg.down, cfg.fail = true, 0, 0, ""
+			if i%4 != 3 {
+				cfg.lo, cfg.hi = wholeLo, wholeHi
+			}
+			if i%5 != 4 {
+				cfg.spc = []int{2, 3, 5, 8, 13}[rnd.Intn(5)]
+				cfg.tframe = []int{1, 60, 120, 250}[rnd.Intn(4)]
+			}
 			emit(wc, cfg)
 		}
 	}
@@ -827,7 +913,7 @@ func TestC04(t *testing.T) {
 			total += len(r.samples)
 		}
 		return vt.Event{"world": worldEvent(w), "cfg": cfg.toMap(), "part": vt.Str(c["part"]),
-			"drift": !cfg.tsdb && total <= 60, "nstores": nstores(w),
+			"drift": !cfg.tsdb && total <= 60, "nstores": nstores(w), "maxframes": res.maxFrames,
 			"series": res.series, "err": res.err, "warns": res.warns, "reqs": res.reqs, "queried": res.queried}
 	})
 }
